@@ -59,7 +59,6 @@ CfgOK(c) ==
     /\ (c.type = "positive" => ~HasBases(c))
     /\ (c.type # "positive" => HasBases(c))      \* complex / mixed states refuse to train without bases
     /\ c.again \in {"no", "keep", "clear", "keepStop", "abort"}
-    /\ (c.again # "no" => \A i \in 1..NCb(c) : c.cbs[i].t # "early")
     /\ NCb(c) >= 1 /\ \E i \in 1..NCb(c) : c.cbs[i].t = "rec"
 
 IsPerm(p, n) == /\ Len(p) = n
@@ -337,7 +336,9 @@ Restart ==
        \/ pc = "Aborted"
     /\ carry' = [hist |-> hist, cbs |-> cbs, stop |-> stop, pver |-> pver, again |-> cfg.again]
     /\ cbs' = [i \in 1..NCb(cfg) |->
-                 IF cfg.again = "clear" /\ cfg.cbs[i].t = "eval" THEN <<>> ELSE cbs[i]]
+                 IF cfg.again = "clear" /\ cfg.cbs[i].t = "eval" THEN <<>>
+                 ELSE IF cfg.cbs[i].t = "early" THEN <<>>       \* (the user resets the stopper's last_epoch)
+                 ELSE cbs[i]]
     /\ stop' = (cfg.again \in {"keepStop", "abort"} /\ stop)
     /\ cfg' = [cfg EXCEPT !.again = "no", !.entryStop = (cfg.again \in {"keepStop", "abort"} /\ stop)]
     /\ pc' = "Entry" /\ ep' = -1 /\ b' = -1 /\ net' = 0 /\ sched' = 0
@@ -357,7 +358,9 @@ Terminates == <>(pc = "Done" /\ cfg.again = "no")
 
 \* records carried over from a previous run on the same callback objects
 Base(i) == IF carry = <<>> THEN <<>>
-           ELSE IF carry.again = "clear" /\ cfg.cbs[i].t = "eval" THEN <<>> ELSE carry.cbs[i]
+           ELSE IF carry.again = "clear" /\ cfg.cbs[i].t = "eval" THEN <<>>
+           ELSE IF cfg.cbs[i].t = "early" THEN <<>>
+           ELSE carry.cbs[i]
 BasePver == IF carry = <<>> THEN 0 ELSE carry.pver
 
 \* the logical callback events: what the first recording callback saw
@@ -538,7 +541,9 @@ RecsAt(i, e) ==
         pe == cfg.cbs[d.ev].period
         hi == IF d.ev < i THEN e ELSE e - 1       \* evaluator earlier in the list has already run
         es == EvalEpochs(cfg.startEp, hi, pe) IN
-    [j \in 1..Len(es) |-> <<es[j], Val(cfg, es[j]), Var(cfg, es[j])>>]
+    \* (an evaluator that is not cleared between two runs keeps the evaluations of the earlier run: "p
+    \* evaluations earlier" counts them)
+    Base(d.ev) \o [j \in 1..Len(es) |-> <<es[j], Val(cfg, es[j]), Var(cfg, es[j])>>]
 RuleAt(i, e) ==
     LET d == cfg.cbs[i] r == RecsAt(i, e) IN
     /\ e % d.period = 0
